@@ -2,7 +2,7 @@
 import z3  # noqa
 
 from .sym import Int, Bool, Str, Seq, ListOf, Opaque, Const, OneOf, SInt, SBool, SStr, SSeq, Unsupported  # noqa
-from .engine import Contract, Loop, SpecFn, Alphabet, EncStr, SEnc, Obj, STR_REPEAT, Helper, MapStrInt, DictWith, PMap  # noqa
+from .engine import Contract, Loop, SpecFn, Alphabet, EncStr, SEnc, Obj, STR_REPEAT, Helper, MapStrInt, DictWith, PMap, PExt, SameAs, PObj, PExc, PList, Frame  # noqa
 
 
 class Lemma(object):
